@@ -1,7 +1,119 @@
-//! C07 — stub (monitor not built yet)
-use crate::run::{Ctx, Report, Stats};
-pub fn run(_ctx: &Ctx) -> Report {
-    let mut r = Report::new(Stats::default(), "not built");
-    r.inconclusive.push("monitor-not-built".into());
-    r
+//! C07 — sparse products equal dense products; transpose is the adjoint.
+use crate::fl::{self, U};
+use crate::model::vec_to_ohsl;
+use crate::mon::c06::{gen_sm, SM};
+use crate::mon::common::*;
+use crate::rat::Rat;
+use crate::rng::Rng;
+use crate::run::{catch, par_run, Ctx, Outcome, Report, Stats};
+use ohsl::{Sparse, Vector};
+
+const TAG: u64 = 0xC07;
+const PRIMES: [i64; 12] = [2, 3, 5, 7, 11, 13, 17, 19, 23, 29, 31, 37];
+
+fn exact_case(st: &mut Stats, rng: &mut Rng, rows: usize, cols: usize) {
+    st.next_case();
+    let dens = *rng.pick(&[0.0, 0.15, 0.4, 0.8, 1.0]);
+    let mut m = gen_sm(rng, rows, cols, dens, true);
+    if rows > 1 && rng.chance(0.3) { let r0 = rng.usize(0, rows - 1); m.e.retain(|&(r, _), _| r != r0); }
+    if cols > 1 && rng.chance(0.3) { let c0 = rng.usize(0, cols - 1); m.e.retain(|&(_, c), _| c != c0); }
+    let d = m.dense();
+    let dt = d.transpose();
+    // distinct primes (signed) so that a wrong pairing of component and entry changes the result
+    let mut p: Vec<i64> = PRIMES.to_vec(); rng.shuffle(&mut p);
+    let x: Vec<Rat> = (0..cols).map(|j| Rat::int(if rng.bool() { p[j] } else { -p[j] })).collect();
+    rng.shuffle(&mut p);
+    let y: Vec<Rat> = (0..rows).map(|i| Rat::int(if rng.bool() { p[i] } else { -p[i] })).collect();
+    let mut t = m.triplets(); rng.shuffle(&mut t);
+    let desc = || format!("T=Rat {}x{} entries={:?} x={:?} y={:?}", rows, cols, m.triplets(), x, y);
+    let s = if rng.chance(0.3) { let (val, ri, cs) = m.csc(rng, true); catch(|| Sparse::<Rat>::from_vecs(rows, cols, val, ri, cs)) } else { catch(|| Sparse::<Rat>::from_triplets(rows, cols, &mut t)) };
+    let mut s = match s { Outcome::Ok(s) => s, o => { st.violation("C07:construct:panic", format!("{}; {}", o.describe(), desc())); return; } };
+    let (xv, yv) = (vec_to_ohsl(&x), vec_to_ohsl(&y));
+    let mut expect = |st: &mut Stats, name: &str, out: Outcome<Vector<Rat>>, want: &Vec<Rat>, extra: &str| -> Option<Vec<Rat>> {
+        st.eval();
+        match out {
+            Outcome::Overflow => { st.count("skipped:rat-overflow"); None }
+            Outcome::Ok(v) => { if &v.vec != want { st.violation(&format!("C07:{}:Rat:wrong-value", name), format!("{} = {:?} expected {:?}; {}{}", name, v.vec, want, extra, desc())); } Some(v.vec) }
+            o => { st.violation(&format!("C07:{}:Rat:panic", name), format!("{} {}; {}{}", name, o.describe(), extra, desc())); None }
+        }
+    };
+    let ax = d.mulvec(&x);
+    let aty = dt.mulvec(&y);
+    let r1 = expect(st, "multiply", catch(|| s.multiply(&xv)), &ax, "");
+    let r2 = expect(st, "transpose_multiply", catch(|| s.transpose_multiply(&yv)), &aty, "");
+    let r3 = match catch(|| s.transpose()) { Outcome::Ok(tr) => expect(st, "transpose().multiply", catch(|| tr.multiply(&yv)), &aty, ""), o => { st.violation("C07:transpose:Rat:panic", format!("{}; {}", o.describe(), desc())); None } };
+    if let (Some(a), Some(b)) = (&r2, &r3) { if a != b { st.violation("C07:transpose-vs-transpose_multiply:Rat:disagree", desc()); } }
+    // adjoint identity through library results only
+    if let (Some(a), Some(b)) = (&r1, &r2) {
+        let lhs = y.iter().zip(a).fold(Rat::ZERO, |acc, (p, q)| acc + *p * *q);
+        let rhs = b.iter().zip(&x).fold(Rat::ZERO, |acc, (p, q)| acc + *p * *q);
+        st.eval();
+        if lhs != rhs { st.violation("C07:adjoint-identity:Rat", format!("<y,Ax>={:?} <A^T y,x>={:?}; {}", lhs, rhs, desc())); }
+    }
+    // scaling scales every product
+    let f = Rat::int(*rng.pick(&[-3, -1, 2, 5, 0]));
+    if let Outcome::Ok(()) = catch(|| s.scale(&f)) {
+        let sax: Vec<Rat> = ax.iter().map(|v| *v * f).collect();
+        let saty: Vec<Rat> = aty.iter().map(|v| *v * f).collect();
+        let e = format!("after scale({:?}) ", f);
+        expect(st, "scale+multiply", catch(|| s.multiply(&xv)), &sax, &e);
+        expect(st, "scale+transpose_multiply", catch(|| s.transpose_multiply(&yv)), &saty, &e);
+    } else { st.violation("C07:scale:Rat:panic", desc()); }
+    st.count(&format!("shape:{}x{}", rows, cols));
+    st.set_insert("nnz-seen", format!("{}", m.e.len()));
+    if rows * cols >= 2 { let mut h = hash_str("rat") ^ (rows * 16 + cols) as u64; for (k, v) in &m.e { h = hmix(hmix(h, (k.0 * 16 + k.1) as u64), v.n as u64 ^ ((v.d as u64) << 20)); } st.nontrivial(hmix(h, x.iter().fold(0, |a, v| hmix(a, v.n as u64)))); }
+    st.sample(|| desc());
+}
+
+fn float_case(st: &mut Stats, rng: &mut Rng, rows: usize, cols: usize) {
+    st.next_case();
+    let integer = rng.bool();
+    let dens = *rng.pick(&[0.1, 0.4, 0.9]); let m: SM = gen_sm(rng, rows, cols, dens, false);
+    let vals: Vec<((usize, usize), f64)> = m.e.keys().map(|&k| (k, if integer { rng.int(-20, 20) as f64 } else { rng.sym() * rng.logpos(1e-3, 1e3) })).collect();
+    let x: Vec<f64> = (0..cols).map(|_| if integer { rng.int(-20, 20) as f64 } else { rng.sym() * rng.logpos(1e-3, 1e3) }).collect();
+    let y: Vec<f64> = (0..rows).map(|_| if integer { rng.int(-20, 20) as f64 } else { rng.sym() }).collect();
+    let mut t: Vec<(usize, usize, f64)> = vals.iter().map(|&((r, c), v)| (r, c, v)).collect();
+    rng.shuffle(&mut t);
+    let desc = || format!("T=f64 {}x{} entries={:?} x={:?} y={:?}", rows, cols, vals, x, y);
+    let s = match catch(|| Sparse::<f64>::from_triplets(rows, cols, &mut t)) { Outcome::Ok(s) => s, o => { st.violation("C07:construct:panic", format!("{}; {}", o.describe(), desc())); return; } };
+    let nnz = vals.len().max(1) as f64;
+    let mut judge = |st: &mut Stats, name: &str, got: Outcome<Vector<f64>>, transposed: bool| {
+        st.eval();
+        let n_out = if transposed { cols } else { rows };
+        match got {
+            Outcome::Ok(v) => {
+                if v.vec.len() != n_out { st.violation(&format!("C07:{}:f64:length", name), desc()); return; }
+                for i in 0..n_out {
+                    let mut sdd = fl::DD::ZERO; let mut mag = 0.0;
+                    for &((r, c), a) in &vals { let (oi, ii) = if transposed { (c, r) } else { (r, c) }; if oi == i { let xv = if transposed { y[ii] } else { x[ii] }; sdd = sdd + fl::DD::prod(a, xv); mag += (a * xv).abs(); } }
+                    let err = (fl::DD::from(v.vec[i]) - sdd).f().abs();
+                    let tol = if integer { 0.0 } else { 4.0 * nnz * U * mag };
+                    if !integer && mag > 0.0 { st.max("f64:err_over_tol", err / tol); }
+                    if !(err <= tol) { st.violation(&format!("C07:{}:f64:wrong-value", name), format!("{}[{}] = {:e} expected {:e} (tol {:e}); {}", name, i, v.vec[i], sdd.f(), tol, desc())); return; }
+                }
+            }
+            o => st.violation(&format!("C07:{}:f64:panic", name), format!("{}; {}", o.describe(), desc())),
+        }
+    };
+    let (xv, yv) = (Vector::create(x.clone()), Vector::create(y.clone()));
+    judge(st, "multiply", catch(|| s.multiply(&xv)), false);
+    judge(st, "transpose_multiply", catch(|| s.transpose_multiply(&yv)), true);
+    judge(st, "transpose().multiply", catch(|| s.transpose().multiply(&yv)), true);
+    st.count(if integer { "cases:f64-integer" } else { "cases:f64-general" });
+    if rows * cols >= 2 { st.nontrivial(hmix(hash_str("f64"), vals.iter().fold((rows * 16 + cols) as u64, |h, (_, v)| hmix(h, v.to_bits())))); }
+}
+
+pub fn run(ctx: &Ctx) -> Report {
+    let nshape = 121u64; // [0,10]^2
+    let reps = ctx.vol(1500, 60_000);
+    let stats = par_run(ctx, TAG, nshape, |u, rng, st| {
+        let (r, c) = ((u / 11) as usize, (u % 11) as usize);
+        for _ in 0..reps { exact_case(st, rng, r, c); float_case(st, rng, r, c); }
+    });
+    let mut rep = Report::new(stats,
+        "for every shape (rows,cols) in [0,10]^2: random duplicate-free patterns (densities 0..1, forced empty rows/columns, explicit zeros, triplets shuffled or raw CSC with scrambled rows); vectors of distinct signed primes; multiply, transpose_multiply, transpose().multiply, adjoint identity <y,Ax>=<A^T y,x>, and all products again after scale(f) — exact over Rat; f64: integer data exact, general data within 4*nnz*u*sum|a||x| of a double-double reference. Non-trivial: at least 2 cells; distinct = distinct (shape, entries, x) hashes");
+    rep.assumptions = vec!["dense reference = model built from the same entry map".into()];
+    rep.min_nontrivial = 1000;
+    rep.extra.set("exhaustive_parts", crate::json::J::Arr(vec![crate::json::J::s("shapes [0,10]^2")]));
+    rep
 }
